@@ -53,8 +53,28 @@ func ZZ_C20_RunVsExecute(sv *zzsv.T) {
 	}
 	e1.Script, e2.Script = src, src
 	sv.Note("script", src)
+	// the two evaluators are configured identically - also with a context:
+	// none, one given before Prepare, one given after Prepare (too late to
+	// matter or not: Run and Execute must make the same of it), one that is
+	// already done
+	when := sv.Choice("context", 4)
+	if when == 1 || when == 3 {
+		k := sv.Param("ctx.never", 1000000, 1000000)
+		if when == 3 {
+			k = 0
+		}
+		c1, c2 := sv.Ctx("ctx1", k), sv.Ctx("ctx2", k)
+		sv.Assume(c1.K == int64(k) && c2.K == int64(k))
+		e1.SetContext(c1)
+		e2.SetContext(c2)
+	}
 	sv.Assume(e1.Prepare() == nil)
 	sv.Assume(e2.Prepare() == nil)
+	if when == 2 {
+		c1, c2 := sv.Ctx("ctx1", 0), sv.Ctx("ctx2", 0)
+		e1.SetContext(c1)
+		e2.SetContext(c2)
+	}
 	out, eerr := e1.Execute(obj1)
 	verdict, rerr := e2.Run(obj2)
 	zzDescribe(sv, "execute", out, eerr)
